@@ -945,8 +945,8 @@ func init() {
 
 func init() {
 	register(&Rule{
-		Name: "refusal-is-for-requests-in-order", Props: []string{"C08", "C13"}, Engine: "AST", Floor: 2,
-		Doc: "the concurrency limit (and a connection that is closing) refuses requests, not frames: the refusing branch of the stream loop is entered only for a HEADERS frame on an id above the latest accepted one, so that every other frame on an id that names no stream is judged by that stream's state exactly as it is below the limit (RFC 7540 5.1: WINDOW_UPDATE or DATA on an idle stream is a connection error, whatever the handlers are doing); and a refused request still moves the mark that later ids are compared with (5.1.1)",
+		Name: "refusal-is-for-requests-in-order", Props: []string{"C08", "C13"}, Engine: "AST", Floor: 3,
+		Doc: "the concurrency limit (and a connection that is closing) refuses requests, not frames: the refusing branch of the stream loop is entered only for a HEADERS frame on an id above the highest a request has named so far (decided once, before the id is published, as newRequest), so that every other frame on an id that names no stream is judged by that stream's state exactly as it is below the limit (RFC 7540 5.1: WINDOW_UPDATE or DATA on an idle stream is a connection error, whatever the handlers are doing); and a refused request still moves the mark that later ids are compared with (5.1.1)",
 		Run: func(p *Prog, r *Out) {
 			fd := p.decl("(*serverConn).handleStreams")
 			if fd == nil {
@@ -985,24 +985,30 @@ func init() {
 					}
 					limOK = len(ds) == 2 && ds["openStreams>=int(sc.st.maxStreams)"] && ds["wasClosing"]
 				}
-				okCond = limOK && atoms["fr.Type()==FrameHeaders"] && atoms["fr.Stream()>sc.lastID"] && len(atoms) == 3
+				okCond = limOK && atoms["newRequest"] && len(atoms) == 2 && p.newRequestDefined(fd, refuse)
 			}
-			r.check(okCond, "only a request that is in order is refused", p.pos(refuse.Pos()), "(openStreams >= maxStreams || wasClosing) && fr.Type() == FrameHeaders && fr.Stream() > sc.lastID", "the stream loop refuses, at the concurrency limit or while closing, frames other than a HEADERS frame on an id above the latest: WINDOW_UPDATE or DATA on an idle stream, or HEADERS on an id below the latest, then comes back as RST_STREAM(REFUSED_STREAM) while the handlers are busy and is a connection error the moment one returns")
+			r.check(okCond, "only a request that is in order is refused", p.pos(refuse.Pos()), "(openStreams >= maxStreams || wasClosing) && newRequest, newRequest := fr.Type() == FrameHeaders && fr.Stream() > highID decided before the id is published", "the stream loop refuses, at the concurrency limit or while closing, frames other than a HEADERS frame on an id above the latest: WINDOW_UPDATE or DATA on an idle stream, or HEADERS on an id below the latest, then comes back as RST_STREAM(REFUSED_STREAM) while the handlers are busy and is a connection error the moment one returns")
 			// the refused id moves the ordering mark
-			moves := false
+			moves, promise := false, false
+			for _, s := range refuse.Body.List {
+				if squash(p.text(s)) == "highID=fr.Stream()" {
+					moves = true
+				}
+			}
 			ast.Inspect(refuse.Body, func(n ast.Node) bool {
 				switch x := n.(type) {
 				case *ast.AssignStmt:
-					if len(x.Rhs) == 1 && squash(p.text(x.Rhs[0])) == "fr.Stream()" {
-						moves = true
+					if strings.Contains(p.text(x.Lhs[0]), "lastID") {
+						promise = true
 					}
 				case *ast.CallExpr:
-					if p.calleeOf(x) == "atomic.StoreUint32" && len(x.Args) == 2 && squash(p.text(x.Args[1])) == "fr.Stream()" {
-						moves = true
+					if p.calleeOf(x) == "atomic.StoreUint32" && len(x.Args) == 2 && strings.Contains(p.text(x.Args[0]), "lastID") {
+						promise = true
 					}
 				}
 				return true
 			})
+			r.check(!promise, "a refused request does not raise what a GOAWAY promises", p.pos(refuse.Pos()), "no store to sc.lastID in the refusing branch", "the refusing branch stores the refused id in sc.lastID: a GOAWAY then names, as the highest stream that was or will be processed, a request the peer was told was not processed at all (RFC 7540 s6.8)")
 			key := "a refused request still moves the mark later ids are compared with"
 			if moves {
 				r.ok(key, p.pos(refuse.Pos()), "the refused id is recorded")
@@ -1011,4 +1017,47 @@ func init() {
 			}
 		},
 	})
+}
+
+// newRequestDefined reports whether the condition `newRequest`, as read by the
+// statement at, is `fr.Type() == FrameHeaders && fr.Stream() > highID` decided
+// in the same block before the statement, with neither the frame nor the mark
+// assigned in between and no second assignment of the name anywhere.
+func (p *Prog) newRequestDefined(fd *ast.FuncDecl, at ast.Stmt) bool {
+	pm := p.pmFor(fd)
+	blk, ok := pm[at].(*ast.BlockStmt)
+	if !ok {
+		return false
+	}
+	var def ast.Stmt
+	for _, s := range blk.List {
+		if s.Pos() >= at.Pos() {
+			break
+		}
+		if as, ok := s.(*ast.AssignStmt); ok && as.Tok == token.DEFINE && len(as.Lhs) == 1 && p.text(as.Lhs[0]) == "newRequest" && len(as.Rhs) == 1 {
+			if p.isConjunctionOf(as.Rhs[0], "fr.Type()==FrameHeaders", "fr.Stream()>highID") {
+				def = s
+			}
+		}
+	}
+	if def == nil {
+		return false
+	}
+	clean := true
+	ast.Inspect(fd.Body, func(n ast.Node) bool {
+		as, ok := n.(*ast.AssignStmt)
+		if !ok || as == def {
+			return true
+		}
+		for _, l := range as.Lhs {
+			switch t := squash(p.text(l)); {
+			case t == "newRequest":
+				clean = false
+			case (t == "highID" || t == "fr") && as.Pos() > def.Pos() && as.Pos() < at.Pos():
+				clean = false
+			}
+		}
+		return true
+	})
+	return clean
 }
